@@ -75,8 +75,9 @@ class Code13(CodeBase):
         for field, fieldtype in self.fieldtypes.items():
             val = getattr(self, field)
             if isinstance(fieldtype, tuple):
-                assert (
-                    type(val) in fieldtype
+                # (isinstance: the interpreter accepts subclasses of str, tuple ...)
+                assert isinstance(
+                    val, fieldtype
                 ), "%s should be one of the types %s; is type %s" % (
                     field,
                     fieldtype,
